@@ -208,6 +208,9 @@ type c13Env struct {
 	loops   []*c13Loop
 	alias   map[*types.Var]bool // single-assignment local copies of ev
 	custom  core.AtomNamer      // additional role names (used by C31, which shares the table machinery)
+	// cmp names an equality between non-integer values (base of the atom "l == r", "" = not nameable); the
+	// operands are passed as written, in either order
+	cmp func(env *c13Env, l, r ast.Expr) string
 }
 
 var c13Getters = map[string]string{"Seq": "seq", "Epoch": "epoch", "Frame": "frame", "Lamport": "lamport", "Creator": "creator"}
@@ -748,6 +751,11 @@ func (env *c13Env) atomOf(ft core.Fact) c13Atom {
 			a := env.atomOf(core.Fact{Expr: cm.L, Truth: true})
 			b := env.atomOf(core.Fact{Expr: cm.R, Truth: true})
 			return c13Atom{c13Xor(a.base, b.base), (a.neg != b.neg) != (cm.Op == token.EQL)}
+		}
+		if env.cmp != nil {
+			if s := env.cmp(env, cm.L, cm.R); s != "" {
+				return c13Atom{s, cm.Op == token.NEQ}
+			}
 		}
 	}
 	if lc, ok := core.NormLinCmp(info, ft, env.atom); ok {
@@ -1488,9 +1496,29 @@ func runC13(c *core.Ctx) {
 		g := c.Fn(c13BaseT + ".IsSelfParent")
 		grecv, hp := g.Recv(), g.Param(0)
 		c.Need(grecv != nil && hp != nil, "BaseEvent.IsSelfParent has named receiver and parameter")
-		gvw := c13NewView(g, nil, c13MkEnv(grecv, nil, true))
+		// The boolean result is read as a decision: `return C` ends in the outcomes of
+		// `if C { return true }; return false`, one per short-circuit alternative of C (splitBool), so it does
+		// not matter whether the nil test is an if with its own `return false` or a conjunct of the result.
+		const cmpA, nonNil = "*selfParent == hash", "!(selfParent == nil)"
+		baseEnv := c13MkEnv(grecv, nil, true)
+		gvw := c13NewView(g, nil, func(vw *c13View, fr *c13Frame) *c13Env {
+			env := baseEnv(vw, fr)
+			// the comparison of the dereferenced self-parent with the argument: either operand order, the
+			// pointer possibly held in a temporary
+			env.cmp = func(env *c13Env, l, r ast.Expr) string {
+				l, r = env.res(l), env.res(r)
+				if fr.isRoot() && varOf(g, l) == hp {
+					l, r = r, l
+				}
+				if st, ok := l.(*ast.StarExpr); ok && fr.isRoot() && varOf(g, r) == hp && env.ptrAtom(st.X) == "selfParent" {
+					return cmpA
+				}
+				return ""
+			}
+			return env
+		})
+		gvw.splitBool = true
 		gvw.build()
-		genv := gvw.root.env
 		nCmp := 0
 		cmpSeen := map[*ast.ReturnStmt]bool{}
 		kindISP := func(o *c13Outcome) (int, string) {
@@ -1500,29 +1528,43 @@ func runC13(c *core.Ctx) {
 			if o.stmt == nil || len(o.stmt.Results) != 1 {
 				return c13Unknown, ""
 			}
-			e := genv.res(o.stmt.Results[0])
-			if tv, ok := g.Info().Types[e]; ok && tv.Value != nil && tv.Value.String() == "false" {
-				return c13Reject, ""
-			}
-			if be, ok := e.(*ast.BinaryExpr); ok && be.Op == token.EQL {
-				// either operand order; the dereferenced pointer may be held in a temporary
-				l, rr := genv.res(be.X), genv.res(be.Y)
-				if varOf(g, l) == hp {
-					l, rr = rr, l
+			if !o.split {
+				if o.val.kind == c13VFalse {
+					return c13Reject, "" // "not the self-parent", whatever the argument
 				}
-				if st, ok := l.(*ast.StarExpr); ok && varOf(g, rr) == hp {
-					if genv.ptrAtom(st.X) == "selfParent" {
-						if !cmpSeen[o.stmt] {
-							cmpSeen[o.stmt] = true
-							nCmp++
-						}
-						return c13Accept, ""
+				return c13Unknown, ""
+			}
+			idx := func(atom string) int {
+				for i, a := range o.atoms {
+					if a == atom {
+						return i
 					}
 				}
+				return -1
 			}
-			return c13Unknown, ""
+			// the result has the value of the comparison: true behind *SelfParent() == hash, false behind its
+			// negation; the pointer must not be dereferenced before a nil test of the same condition
+			want := cmpA
+			if !o.truth {
+				want = c13Not(cmpA)
+			}
+			if i := idx(want); i >= 0 {
+				if j := idx(nonNil); j > i {
+					return c13Unknown, ""
+				}
+				if o.truth && !cmpSeen[o.stmt] {
+					cmpSeen[o.stmt] = true
+					nCmp++
+				}
+				return c13Accept, ""
+			}
+			if !o.truth {
+				return c13Reject, "" // false for another reason: owed a row of the table (else an extra rejecting guard)
+			}
+			return c13Unknown, "" // true without the comparison having held
 		}
-		c13Table(c, gvw, []c13Row{{name: "false without a self-parent", tag: "event", how: "the edge SelfParent() == nil reaches only `return false`, and the comparison with *SelfParent() lies behind the complementary edge", alts: []string{"selfParent == nil"}, breaks: "IsSelfParent dereferences a nil self-parent or claims a self-parent for an event that has none"}}, c13TableOpt{kindOf: kindISP, extras: true})
+		c13Table(c, gvw, []c13Row{{name: "false without a self-parent", tag: "event", how: "the edge SelfParent() == nil reaches only `return false`, and the comparison with *SelfParent() lies behind the complementary edge", alts: []string{"selfParent == nil"}, breaks: "IsSelfParent dereferences a nil self-parent or claims a self-parent for an event that has none"}}, c13TableOpt{kindOf: kindISP, extras: true,
+			retMsg: "is neither false nor the value of the comparison *SelfParent() == hash evaluated behind the nil test: IsSelfParent may claim a self-parent that the event does not have"})
 		c.ExpectAtLeast("returns of *SelfParent() == hash in BaseEvent.IsSelfParent", nCmp, 1)
 
 		// getters return their own field
